@@ -130,8 +130,38 @@ def f_tag_blocks(sess, tier):
     _rec(sess, "fact:C16/tag-blocks-per-version-agree-with-the-specification-table", msg is None, msg or "ok")
 
 
+def f_wrappers_truthy(sess, tier):
+    """C01/C02: the structure classes test the presence of a field by the truthiness of the wrapper
+    object (`if self._field:`) - in write(), in the getters and in validate().  The parametric
+    executor relies on it exactly as the code does: a wrapper object is truthy whatever it holds.
+    That is a fact about the classes: no TTLV class (primitive, attribute, structure, payload)
+    defines __bool__ or __len__.  A class that did would make 'present but empty/zero' read as
+    'absent' and silently drop the field."""
+    import importlib
+    import pkgutil
+    import kmip.core
+    from kmip.core import primitives
+    for m in pkgutil.walk_packages(kmip.core.__path__, 'kmip.core.'):
+        try:
+            importlib.import_module(m.name)
+        except Exception:
+            pass
+    seen, todo, bad = set(), [primitives.Base], []
+    while todo:
+        k = todo.pop()
+        if k in seen:
+            continue
+        seen.add(k)
+        todo.extend(k.__subclasses__())
+        for nm in ('__bool__', '__len__'):
+            if nm in vars(k):
+                bad.append("%s.%s defines %s" % (k.__module__, k.__qualname__, nm))
+    _rec(sess, "fact:C01/ttlv-objects-are-truthy-whatever-they-hold", not bad,
+         "%d TTLV classes inspected; %s" % (len(seen), "; ".join(sorted(bad)) or "none defines __bool__ or __len__"))
+
+
 def units(names, ctx):
-    table = {"tag_blocks": f_tag_blocks, "crypto_wrapped": f_crypto_wrapped, "lock": f_lock, "state_frame": f_state_frame, "autoincrement": f_autoincrement,
+    table = {"wrappers_truthy": f_wrappers_truthy, "tag_blocks": f_tag_blocks, "crypto_wrapped": f_crypto_wrapped, "lock": f_lock, "state_frame": f_state_frame, "autoincrement": f_autoincrement,
              "versions": f_versions}
     out = []
     for nm in names:
